@@ -99,14 +99,23 @@ def run_batch(ctx, rng, ej, tj, equipment, network, model, batch_no):
             if routes:
                 route = rng.choice(routes)
                 uid_path, _ = model.expand(route)[0]
-                kind = rng.choice(['roadm', 'roadm', 'line', 'line-first'])
+                kind = rng.choice(['roadm', 'roadm', 'line', 'line-first', 'unsat-loose'])
                 inner_r = [u for u in uid_path[2:-2] if u.startswith('roadm')]
                 first_after = [uid_path[i + 1] for i, u in enumerate(uid_path[1:-2], 1) if u.startswith('roadm')]
                 line = [u for u in uid_path if u in model.element_link]
-                pool = inner_r if kind == 'roadm' else (first_after if kind == 'line-first' else line)
-                if pool:
-                    nodes = [rng.choice(pool)]
-                    hops = [rng.choice(['STRICT', 'LOOSE'])]
+                if kind == 'unsat-loose':
+                    # a LOOSE entry that no route of this request can meet (an element of a link that ENTERS the
+                    # source site): the constraint is dropped for this request - and only for this one
+                    src_site = model.roadm_of[a]
+                    pool = [u for u, (x, y, _) in model.element_link.items() if y == src_site]
+                    if pool:
+                        nodes, hops = [rng.choice(pool)], ['LOOSE']
+                        ctx.count('members_with_unsatisfiable_loose_entry')
+                else:
+                    pool = inner_r if kind == 'roadm' else (first_after if kind == 'line-first' else line)
+                    if pool:
+                        nodes = [rng.choice(pool)]
+                        hops = [rng.choice(['STRICT', 'LOOSE'])]
         i = str(rid)
         reqs.append(S.request(i, a, z, nodes=nodes, hops=hops, trx_mode='mode 1'))
         meta[i] = {'src': a, 'dst': z, 'nodes': nodes, 'hops': hops}
@@ -117,7 +126,7 @@ def run_batch(ctx, rng, ej, tj, equipment, network, model, batch_no):
     con = rng.random() < 0.3
     if shape == 'pair':
         b, y = rng.choice(pairs)
-        groups.append([add(a, z, con), add(b, y, rng.random() < 0.2)])
+        groups.append([add(a, z, con), add(b, y, rng.random() < (0.7 if con else 0.2))])
     elif shape == 'pair-same-ends':
         groups.append([add(a, z, con), add(a, z, False)])
     elif shape == 'triple':
